@@ -20,6 +20,9 @@ pub struct C11;
 pub enum StreamSpec {
     Http(HttpReq),
     Rpc(RpcCall),
+    /// a complete call record followed by further bytes of the connection (the start of a
+    /// pipelined next record, or a record mark that announced less than was sent)
+    RpcThen(RpcCall, Hex),
 }
 
 #[derive(Clone, Debug, Serialize, Deserialize, PartialEq)]
@@ -36,10 +39,18 @@ pub struct Case {
     pub sampled: bool,
 }
 
-/// streams of 300..4000 bytes (one unsplit segment still fits the 4096-byte capture buffer)
+/// streams of 300..12000 bytes (up to 4000 bytes one unsplit segment still fits the 4096-byte
+/// capture buffer; beyond that the coarsest delivery is in 4000-byte segments)
 fn long_spec() -> impl Strategy<Value = StreamSpec> {
+    let len = || prop_oneof![3 => 200usize..3800, 1 => 3800usize..9000];
     prop_oneof![
-        (small_http(), 200usize..3800, any::<u8>(), vec((any::<u16>(), any::<u8>()), 0..6)).prop_map(|(mut h, n, c, sprinkle)| {
+        // a long body behind the empty line (bytes after the request)
+        (small_http(), len(), 100usize..3000, any::<u8>()).prop_map(|(mut h, n, body, c)| {
+            h.target = Hex(vec![b'a' + c % 26; n]);
+            h.tail = Hex(vec![b'b'; body]);
+            StreamSpec::Http(h)
+        }),
+        (small_http(), len(), any::<u8>(), vec((any::<u16>(), any::<u8>()), 0..6)).prop_map(|(mut h, n, c, sprinkle)| {
             let mut t = vec![b'a' + c % 26; n];
             for (p, b) in sprinkle {
                 let k = pick(p, n);
@@ -48,7 +59,7 @@ fn long_spec() -> impl Strategy<Value = StreamSpec> {
             h.target = Hex(t);
             StreamSpec::Http(h)
         }),
-        (small_http(), 200usize..3000, any::<u8>(), 0usize..3).prop_map(|(mut h, n, c, at)| {
+        (small_http(), len(), any::<u8>(), 0usize..3).prop_map(|(mut h, n, c, at)| {
             let v = vec![b'A' + c % 26; n];
             let mut val = b" ".to_vec();
             val.extend_from_slice(&v);
@@ -56,7 +67,7 @@ fn long_spec() -> impl Strategy<Value = StreamSpec> {
             h.headers.insert(k, ("X-Long".to_string(), Hex(val)));
             StreamSpec::Http(h)
         }),
-        (rpc_call(), 100usize..3000, any::<u8>()).prop_map(|(mut r, n, c)| {
+        (rpc_call(), prop_oneof![3 => 100usize..3000, 1 => 3000usize..9000], any::<u8>()).prop_map(|(mut r, n, c)| {
             r.args = Hex((0..n).map(|i| c.wrapping_add(i as u8)).collect());
             StreamSpec::Rpc(r)
         }),
@@ -95,12 +106,16 @@ pub fn case_strategy(big: bool) -> impl Strategy<Value = Case> {
     let spec = if big {
         prop_oneof![http_req().prop_map(StreamSpec::Http), rpc_call().prop_map(StreamSpec::Rpc)].boxed()
     } else {
-        prop_oneof![small_http().prop_map(StreamSpec::Http), small_rpc().prop_map(StreamSpec::Rpc)].boxed()
+        prop_oneof![
+            4 => small_http().prop_map(StreamSpec::Http),
+            3 => small_rpc().prop_map(StreamSpec::Rpc),
+            1 => (small_rpc(), prop_oneof![small_rpc().prop_map(|r| { let mut v = r.record(); v.truncate(40); Hex(v) }), vec(any::<u8>(), 1..12).prop_map(Hex)]).prop_map(|(r, more)| StreamSpec::RpcThen(r, more)),
+        ].boxed()
     };
     (scenario_quiet(Fam::Any), port(), port(), spec, vec(vec(any::<u16>(), 3..10), 24)).prop_map(move |(scn, sport, dport, spec, kcuts)| {
         // exhaustive 2-cut enumeration is quadratic: streams beyond 160 bytes (credentials of 255+ bytes)
         // are cut over the boundary set (which holds every offset of the first 64 bytes) instead
-        let n = match &spec { StreamSpec::Http(h) => h.bytes().len(), StreamSpec::Rpc(r) => r.record().len() };
+        let n = match &spec { StreamSpec::Http(h) => h.bytes().len(), StreamSpec::Rpc(r) => r.record().len(), StreamSpec::RpcThen(r, m) => r.record().len() + m.len() };
         Case { scn, sport, dport, spec, kcuts, sampled: !big && n > 160 }
     })
 }
@@ -160,6 +175,11 @@ pub fn check(c: &Case, st: &mut Stats) -> Check {
             let (b, e) = r.record_and_end();
             (b, 28, e, r.aligned(), "rpc")
         }
+        StreamSpec::RpcThen(r, more) => {
+            let (mut b, e) = r.record_and_end();
+            b.extend_from_slice(more);
+            (b, 28, e, r.aligned(), "rpc+more")
+        }
     };
     let n = s.len();
     // the precondition of the property: the stream is identified as HTTP / RPC-over-TCP. Streams
@@ -173,8 +193,14 @@ pub fn check(c: &Case, st: &mut Stats) -> Check {
         super::c10::Divergence::Unlisted(m) => vfail!("stream {}: {}", hex(&s[..n.min(64)]), m),
     }
     let mut r = Runner { sut: &sut, flow, cookie, frames: 1 };
+    // no segment longer than 4000 bytes (the capture buffer holds 4096-byte frames): streams longer
+    // than that are always cut at the multiples of 4000 as well
+    let base_cuts: Vec<usize> = (1..).map(|k| k * 4000).take_while(|x| *x < n).collect();
+    if !base_cuts.is_empty() {
+        st.class("stream-longer-than-one-frame");
+    }
     // reference deliveries
-    let unsplit = r.run(&s, &[])?;
+    let unsplit = r.run(&s, &base_cuts)?;
     let finest_cuts: Vec<usize> = (sig_len..n).collect();
     let finest = r.run(&s, &finest_cuts)?;
     let t_fin = first_data(&finest);
@@ -207,6 +233,17 @@ pub fn check(c: &Case, st: &mut Stats) -> Check {
     let mut checked = 0u64;
     let mut inside = 0u64;
     let mut judge_seg = |cuts: &[usize], r: &mut Runner, st: &mut Stats| -> Check {
+        let merged: Vec<usize>;
+        let cuts: &[usize] = if base_cuts.is_empty() {
+            cuts
+        } else {
+            let mut m = cuts.to_vec();
+            m.extend_from_slice(&base_cuts);
+            m.sort();
+            m.dedup();
+            merged = m;
+            &merged
+        };
         let v = r.run(&s, cuts)?;
         let first_cut = cuts.first().cloned().unwrap_or(n);
         let res: Check = (|| {
@@ -242,7 +279,7 @@ pub fn check(c: &Case, st: &mut Stats) -> Check {
     let ones: Vec<usize> = if c.sampled {
         let mut b: Vec<usize> = vec![sig_len, sig_len + 1, req_end.saturating_sub(2), req_end.saturating_sub(1), req_end, req_end + 1, n - 1];
         b.extend(1..=64usize);
-        for k in 6..=11 {
+        for k in 6..=13 {
             let p = 1usize << k;
             b.extend_from_slice(&[p - 1, p, p + 1]);
         }
@@ -335,7 +372,7 @@ impl Prop for C11 {
         "C11"
     }
     fn rule(&self) -> &'static str {
-        "cases = request streams from the HTTP grammar (9 verbs, targets incl. non-UTF-8, 0..3 headers, CRLF/LF per line, optional trailing bytes) and the ONC-RPC-over-TCP call generator (record mark, credential/verifier lengths incl. non-empty verifiers, arguments), length <= ~120 (quick) / ~400 (thorough), delivered through the real path (SYN, learned cookie, PSH|ACK segments with exact seq/ack). Plus streams of 300..4000 bytes (request-target, one header value or the call arguments made long; the unsplit delivery still fits the 4096-byte capture buffer) checked over a boundary set of cuts (every offset of the first 64 bytes, signature end, request end, 2^k-1/2^k/2^k+1 for k=6..11, typical segment sizes, all pairs of those) and regular chunkings of 256..2048 bytes. For every other stream: ALL 1-cut and ALL 2-cut segmentations (exhaustive), the all-ones composition and 24 random k-cut compositions. Oracle: two reference deliveries (unsplit; finest = signature segment then one byte per segment) define the trigger offset T and reply R; T must equal the end of the request per the grammar (HTTP: LF of the empty line; RPC: last byte of the verifier); in every other segmentation each segment ending before T gets a bare ACK and the first segment ending at or after T carries R (HTTP Date masked). Segmentations whose first cut lies inside the identifying signature fall under the listed known finding cut-inside-signature (still executed; reported as KNOWN-FINDING, not as violation). Non-trivial = stream is answered; distinct by stream hash; segmentations counted in coverage.segmentations_checked."
+        "cases = request streams from the HTTP grammar (9 verbs, targets incl. non-UTF-8, 0..3 headers, CRLF/LF per line, optional trailing bytes) and the ONC-RPC-over-TCP call generator (record mark, credential/verifier lengths incl. non-empty verifiers, arguments), length <= ~120 (quick) / ~400 (thorough), delivered through the real path (SYN, learned cookie, PSH|ACK segments with exact seq/ack). Plus streams of 300..12000 bytes (request-target, one header value, the bytes behind the empty line or the call arguments made long; no segment exceeds 4000 bytes, the coarsest delivery of a longer stream is in 4000-byte segments) checked over a boundary set of cuts (every offset of the first 64 bytes, signature end, request end, 2^k-1/2^k/2^k+1 for k=6..13, typical segment sizes, all pairs of those) and regular chunkings of 256..2048 bytes. For every other stream: ALL 1-cut and ALL 2-cut segmentations (exhaustive), the all-ones composition and 24 random k-cut compositions. Oracle: two reference deliveries (unsplit; finest = signature segment then one byte per segment) define the trigger offset T and reply R; T must equal the end of the request per the grammar (HTTP: LF of the empty line; RPC: last byte of the verifier); in every other segmentation each segment ending before T gets a bare ACK and the first segment ending at or after T carries R (HTTP Date masked). Segmentations whose first cut lies inside the identifying signature fall under the listed known finding cut-inside-signature (still executed; reported as KNOWN-FINDING, not as violation). Non-trivial = stream is answered; distinct by stream hash; segmentations counted in coverage.segmentations_checked."
     }
     fn run(&self, ctx: &mut RunCtx) {
         let n = ctx.share(ctx.tier.n(8_000, 60_000));
